@@ -111,7 +111,15 @@ def s2(tier):
                         # ... and a callee each call forwards to happily but whose requirements cannot be merged
                         nm = 'y' if 'y' not in space.names_of(c) else 'zz'
                         clash = ((nm, KWO, False),)
-                        for c2 in (c, other, clash):
+                        # ... and the same callee with its last required named parameter given a default: the first call
+                        # still requires it
+                        req = [q for q in c if q[1] in (POK, KWO) and not q[2]]
+                        relaxed = None
+                        if req:
+                            relaxed = tuple((q[0], q[1], True) if q is req[-1] else q for q in c)
+                            if not space.valid_shape(relaxed):
+                                relaxed = None
+                        for c2 in (c, other, clash) + ((relaxed,) if relaxed else ()):
                             cs2 = CallSpec(c2, 0 if c2 is clash else cs.npos, () if c2 is clash else cs.names, cs.va, cs.vk)
                             out.append(Prog(o, (cs, cs2), ctx, route, None))
                     else:
